@@ -145,6 +145,11 @@ func (state *RuntimeState) certGenHandler(w http.ResponseWriter, r *http.Request
 			return
 		}
 		metricLogCertDuration("unparsed", "requested", float64(newDuration.Seconds()))
+		if newDuration < 0 {
+			logger.Printf("rejecting negative duration: %s", newDuration)
+			state.writeFailureResponse(w, r, http.StatusBadRequest, "Error parsing form (invalid duration)")
+			return
+		}
 		if newDuration > duration {
 			logger.Println(err)
 			state.writeFailureResponse(w, r, http.StatusBadRequest, "Error parsing form (invalid duration)")
